@@ -87,6 +87,9 @@ class World:
         # sys.modules entries need not be module objects (a module may replace itself there by any object: a lazy
         # proxy, a class instance): every second synthetic "module" is a plain object with an instance __dict__
         self.modobj = {m: (types.ModuleType(zz(m)) if k % 2 == 0 else PlainEntry(zz(m))) for k, m in enumerate(self.mods)}
+        if cfg.get("alias"):
+            # one module object under two names
+            self.modobj[self.mods[1]] = self.modobj[self.mods[0]]
         # ... and a module is in sys.modules from the moment its import STARTS: every other real module object looks the
         # way a module does while its body is still running (its spec says so)
         import importlib.machinery
